@@ -655,7 +655,7 @@ impl AtomRaiser<'_, '_> {
 
         let encodings = abi.arg_encodings().collect::<Vec<_>>();
         let IntrinsicInstrAbiParts {
-            num_instr_args: _, outputs: ref outputs_info,
+            num_instr_args: _, padding: _, outputs: ref outputs_info,
             jump: ref jump_info, plain_args: ref plain_args_info, sub_id: ref sub_id_info,
         } = abi_parts;
 
